@@ -72,11 +72,12 @@ var verifSysSeq atomic.Int64
 
 const verifWait = 60 * time.Second
 
-// verifQuiesce waits until pid has an empty mailbox and an idle dispatch state.
+// verifQuiesce waits until pid has empty mailboxes (regular and system/control) and an idle dispatch state.
 func verifQuiesce(pid *PID) bool {
 	deadline := time.Now().Add(verifWait)
 	for {
-		if pid.mailbox == nil || (pid.mailbox.IsEmpty() && pid.schedState.Load() == dispatchIdle) {
+		if pid.mailbox == nil || (pid.mailbox.IsEmpty() && (pid.systemMailbox == nil || pid.systemMailbox.IsEmpty()) &&
+			pid.schedState.Load() == dispatchIdle) {
 			return true
 		}
 		if time.Now().After(deadline) {
@@ -161,9 +162,20 @@ func (r *verifSysRun) observe(op, x string, waitOffline bool) string {
 	return s
 }
 
+// settle lets every running scenario actor drain its mailbox, so that a Terminated that was enqueued by an
+// earlier op has been received before the next op (which may stop the receiver) begins.
+func (r *verifSysRun) settle() {
+	for _, p := range r.pids {
+		if p.IsRunning() {
+			verifQuiesce(p)
+		}
+	}
+}
+
 func (r *verifSysRun) op(tok string) string {
 	ctx := context.Background()
 	f := strings.Split(tok, ":")
+	r.settle()
 	switch f[0] {
 	case "S":
 		pid, err := r.sys.Spawn(ctx, f[1], &verifSysActor{sc: r.sc, name: f[1]}, WithLongLived())
